@@ -12,6 +12,7 @@
 #include "core/tbftree.hpp"
 #include "algorithms/sequential/tbfalgorithm.hpp"
 #include "algorithms/openmp/tbfopenmpalgorithm.hpp"
+#include "algorithms/periodic/tbfalgorithmperiodictoptree.hpp"
 #if KERNEL == 0
 #include "kernels/rotationkernel/FRotationKernel.hpp"
 #else
@@ -21,6 +22,7 @@
 #include <cmath>
 #include <complex>
 #include <memory>
+#include <set>
 
 using Real = REALT;
 constexpr int Dim = 3;
@@ -41,6 +43,15 @@ using KernelClass = FUnifKernel<Real, FInterpMatrixKernelR<Real>, ORDER>;
 #endif
 using Space = TbfDefaultSpaceIndexType<Real>;
 using TreeClass = TbfTree<Real, Real, Dim+1, Real, 4, MultipoleClass, LocalClass>;
+// periodic variant: wrapping lists inside the box + the periodic top tree with k extra levels
+using SpaceP = TbfDefaultSpaceIndexTypePeriodic<Real>;
+#if KERNEL == 0
+using KernelClassP = FRotationKernel<Real, P, SpaceP>;
+#else
+using KernelClassP = FUnifKernel<Real, FInterpMatrixKernelR<Real>, ORDER, Dim, SpaceP>;
+#endif
+using TreeClassP = TbfTree<Real, Real, Dim+1, Real, 4, MultipoleClass, LocalClass, SpaceP>;
+using TopP = TbfAlgorithmPeriodicTopTree<Real, KernelClassP, MultipoleClass, LocalClass, SpaceP>;
 
 static unsigned long lcg;
 static double rnd(){ lcg = lcg * 6364136223846793005UL + 1442695040888963407UL; return double(lcg >> 11) / double(1UL << 53); }
@@ -51,8 +62,78 @@ void run_algo(const TbfSpacialConfiguration<Real, Dim>& conf, TreeClass& tree, K
     algo->execute(tree);
 }
 
+//   nump H B mode k N seed cx cy cz width chargemode : the documented four-step periodic sequence with k extra levels, compared
+//   with the explicit long-double sum over every image of the repetition interval the library reports
+static std::string run_periodic(const Cmd& c){
+    const long H = c.L(1), B = c.L(2), mode = c.L(3), k = c.L(4), N = c.L(5);
+    lcg = (unsigned long)c.L(6) * 7919 + 17;
+    const Real cx = Real(c.D(7)), cy = Real(c.D(8)), cz = Real(c.D(9)), w = Real(c.D(10));
+    const long chargemode = c.L(11);
+    const std::array<Real, Dim> widths{{w, w, w}}; const std::array<Real, Dim> center{{cx, cy, cz}};
+    TbfSpacialConfiguration<Real, Dim> conf(H, widths, center);
+    std::vector<std::array<Real, Dim+1>> pos(N);
+    for(long i = 0 ; i < N ; ++i){
+        pos[i][0] = Real(cx + (rnd() - 0.5) * 0.998 * w); pos[i][1] = Real(cy + (rnd() - 0.5) * 0.998 * w); pos[i][2] = Real(cz + (rnd() - 0.5) * 0.998 * w);
+        pos[i][3] = chargemode == 0 ? Real(0.01) : Real((rnd() < 0.5 ? -1 : 1) * (0.002 + 0.02 * rnd()));
+    }
+    TreeClassP tree(conf, TbfUtils::make_const(pos), B, mode != 0);
+    std::array<long, Dim> lo, hi;
+    std::cout.setstate(std::ios_base::failbit);
+    {
+#if KERNEL == 0
+        std::unique_ptr<TbfAlgorithm<Real, KernelClassP, SpaceP>> algo(new TbfAlgorithm<Real, KernelClassP, SpaceP>(conf, TbfDefaultLastLevelPeriodic));
+        std::unique_ptr<TopP> top(new TopP(conf, k));
+#else
+        FInterpMatrixKernelR<Real> interp;
+        std::unique_ptr<TbfAlgorithm<Real, KernelClassP, SpaceP>> algo(new TbfAlgorithm<Real, KernelClassP, SpaceP>(conf, KernelClassP(conf, &interp), TbfDefaultLastLevelPeriodic));
+        std::unique_ptr<TopP> top(new TopP(conf, KernelClassP(TopP::GenerateAboveTreeConfiguration(conf, k), &interp), k));
+#endif
+        algo->execute(tree, TbfAlgorithmUtils::TbfBottomToTopStages);
+        top->execute(tree);
+        algo->execute(tree, TbfAlgorithmUtils::TbfTransferStages);
+        algo->execute(tree, TbfAlgorithmUtils::TbfTopToBottomStages);
+        const auto iv = top->getRepetitionsIntervals();
+        for(int d = 0 ; d < Dim ; ++d){ lo[d] = iv.first[d]; hi[d] = iv.second[d]; }
+    }
+    std::cout.clear();
+    std::vector<std::array<long double, 4>> ref(N), mag(N);
+    for(long i = 0 ; i < N ; ++i){
+        long double fx = 0, fy = 0, fz = 0, po = 0, mf = 0, mp = 0;
+        for(long ix = lo[0] ; ix <= hi[0] ; ++ix) for(long iy = lo[1] ; iy <= hi[1] ; ++iy) for(long iz = lo[2] ; iz <= hi[2] ; ++iz){
+            const bool central = (ix == 0 && iy == 0 && iz == 0);
+            for(long j = 0 ; j < N ; ++j){
+                if(central && i == j) continue;
+                const long double dx = (long double)pos[j][0] + (long double)ix * w - pos[i][0], dy = (long double)pos[j][1] + (long double)iy * w - pos[i][1],
+                                  dz = (long double)pos[j][2] + (long double)iz * w - pos[i][2];
+                const long double r2 = dx*dx + dy*dy + dz*dz, r = std::sqrt(r2);
+                const long double qq = (long double)pos[i][3] * pos[j][3];
+                fx += qq * dx / (r2 * r); fy += qq * dy / (r2 * r); fz += qq * dz / (r2 * r);
+                po += (long double)pos[j][3] / r;
+                mf += std::fabs(qq) / r2; mp += std::fabs((long double)pos[j][3]) / r;
+            }
+        }
+        ref[i] = {{fx, fy, fz, po}}; mag[i] = {{mf, mf, mf, mp}};
+    }
+    long double epot = 0, efrc = 0, csum = 0; bool finite = true; long count = 0;
+    tree.applyToAllLeaves([&](auto&& h, const long* idx, auto&&, auto&& rhs){
+        for(long p = 0 ; p < h.nbParticles ; ++p){
+            const long i = idx[p]; count += 1;
+            for(int kk = 0 ; kk < 4 ; ++kk){
+                const long double v = rhs[kk][p];
+                if(!std::isfinite((double)v)) finite = false;
+                const long double e = mag[i][kk] > 0 ? std::fabs(v - ref[i][kk]) / mag[i][kk] : std::fabs(v - ref[i][kk]);
+                if(kk == 3){ if(e > epot) epot = e; csum += v * (1 + (i % 7)); } else if(e > efrc) efrc = e;
+            }
+        }
+    });
+    char buf[320];
+    std::snprintf(buf, sizeof buf, "finite=%d count=%ld epot=%.6Le efrc=%.6Le cpot=%.17Le lo=%ld hi=%ld", int(finite), count, epot, efrc, csum, lo[0], hi[0]);
+    return std::string(buf);
+}
+
 int main(int argc, char** argv){
     return run_commands(argc, argv, [](const Cmd& c) -> std::string {
+        if(c.tok[0] == "nump") return run_periodic(c);
         if(c.tok[0] != "num") return "?unknown";
         const long H = c.L(1), B = c.L(2), mode = c.L(3), exec = c.L(4), N = c.L(5);
         lcg = (unsigned long)c.L(6) * 7919 + 17;
@@ -61,10 +142,35 @@ int main(int argc, char** argv){
         const std::array<Real, Dim> widths{{w, w, w}}; const std::array<Real, Dim> center{{cx, cy, cz}};
         TbfSpacialConfiguration<Real, Dim> conf(H, widths, center);
         std::vector<std::array<Real, Dim+1>> pos(N);
+        const long place = c.size() > 12 ? c.L(12) : 0;
         for(long i = 0 ; i < N ; ++i){
             // strictly inside the box (margin 1e-3 of the width) to stay away from the face-rounding issue of C06
             pos[i][0] = Real(cx + (rnd() - 0.5) * 0.998 * w); pos[i][1] = Real(cy + (rnd() - 0.5) * 0.998 * w); pos[i][2] = Real(cz + (rnd() - 0.5) * 0.998 * w);
             pos[i][3] = chargemode == 0 ? Real(0.01) : Real((rnd() < 0.5 ? -1 : 1) * (0.002 + 0.02 * rnd()));
+        }
+        if(place != 0){
+            // place = bitmask (1 polar axis, 2 x axis, 4 y axis, 8 exact centre, 16 face, 32 edge): a third of the particles on special positions of their leaf cell: on the axes through the cell centre (above and
+            // below / left and right of it), at the centre itself (one per leaf), on a cell face, on a cell edge
+            const long nl = 1L << (H - 1);
+            const double lw = double(w) / double(nl), x0 = double(cx) - double(w) / 2, y0 = double(cy) - double(w) / 2, z0 = double(cz) - double(w) / 2;
+            std::set<long> centred;
+            for(long i = 0 ; i < N ; i += 3){
+                const long ix = long(rnd() * nl) % nl, iy = long(rnd() * nl) % nl, iz = long(rnd() * nl) % nl;
+                const double ccx = x0 + (ix + 0.5) * lw, ccy = y0 + (iy + 0.5) * lw, ccz = z0 + (iz + 0.5) * lw;
+                const double t = (rnd() - 0.5) * 0.9 * lw;
+                double px = ccx, py = ccy, pz = ccz;
+                int kinds[6], nk = 0;
+                for(int b = 0 ; b < 6 ; ++b) if(place & (1 << b)) kinds[nk++] = b;
+                switch(kinds[(i / 3) % nk]){
+                case 0: pz = ccz + t; break;                                 // polar axis, either side
+                case 1: px = ccx + t; break;                                 // x axis
+                case 2: py = ccy + t; break;                                 // y axis
+                case 3: if(centred.insert((ix * nl + iy) * nl + iz).second){ break; } pz = ccz + t; break;   // exact centre, once per leaf
+                case 4: px = x0 + ix * lw + (ix == 0 ? 0.001 * lw : 0.0); py = ccy + t; pz = ccz - t; break;  // on a face
+                case 5: px = x0 + ix * lw + (ix == 0 ? 0.001 * lw : 0.0); py = y0 + iy * lw + (iy == 0 ? 0.001 * lw : 0.0); pz = ccz + t; break;  // on an edge
+                }
+                pos[i][0] = Real(px); pos[i][1] = Real(py); pos[i][2] = Real(pz);
+            }
         }
         TreeClass tree(conf, TbfUtils::make_const(pos), B, mode != 0);
         std::cout.setstate(std::ios_base::failbit);      // the uniform kernel prints timing lines on stdout
